@@ -1521,8 +1521,15 @@ insert_list:
         auto state = th->state;
         if (unlikely(state != states::SLEEPING)) {
         out: // may have thread_yield()-ed
-            if (state == states::READY && th->error_number == 0)
-                th->error_number = error_number;
+            if (state == states::READY && th->error_number == 0) {
+                // `th` is not locked here and may have run on since the two tests above (another vCPU):
+                // it may by now sleep in a wait queue and have been handed a mutex / semaphore
+                // (error_number == -1).  Deliver the interrupt only if there is still no pending
+                // wake-up reason, in ONE atomic step, so that a later reason is never overwritten.
+                int expected = 0;
+                __atomic_compare_exchange_n(&th->error_number, &expected, error_number,
+                                            false, __ATOMIC_ACQ_REL, __ATOMIC_RELAXED);
+            }
             return;
         }
         SCOPED_LOCK(th->lock);
